@@ -123,6 +123,13 @@ Step(m, e) ==
          IF e.point = "span.end.checked"
            THEN <<With(m, e.span, [r EXCEPT !.inWin = @ \cup {e.proc}, !.winOverlap = (@ \/ r.inWin \ {e.proc} # {})]), {}>>
            ELSE <<m, {}>>
+    [] e.ev = "Bulk" ->      \* volume stress: one summarised line per span that `enders` goroutines ended at once
+         LET B(kind) == [kind |-> kind, span |-> e.span, rt |-> m.cfg.rt, hooks |-> m.cfg.hooks,
+                         overlap |-> (e.enders > 1), win |-> FALSE, detail |-> e.handed] IN
+         <<m, (IF \E i \in 1..Len(e.handed) : e.handed[i] > 1 THEN {B("delivered-twice")} ELSE {})
+              \cup (IF \E i \in 1..m.cfg.nprocs : i > Len(e.handed) \/ e.handed[i] = 0 THEN {B("not-delivered")} ELSE {})
+              \cup (IF e.nets > 1 THEN {B("end-time-differs")} ELSE {})
+              \cup (IF e.rec THEN {B("recording-after-end")} ELSE {})>>
     [] e.ev = "Panic" -> <<m, {V(m, e.span, "panic", e.proc)}>>
     [] e.ev = "Stuck" -> <<m, IF e.deadlock THEN {V(m, 0, "deadlock", e.procs)} ELSE {}>>
     [] OTHER -> <<m, {}>>
